@@ -79,8 +79,11 @@ def default_params(tier):
 
 
 # ------------------------------------------------------------------------------------------------ task specs
-def draw_tasks(ch, params):
-    stratum = params["strata"][ch.draw(len(params["strata"]), "stratum")]
+def draw_tasks(ch, params, force_stratum=None):
+    if force_stratum is None:
+        stratum = params["strata"][ch.draw(len(params["strata"]), "stratum")]
+    else:   # systematic sweep: the set number decides the stratum (recorded as a draw all the same)
+        stratum = params["strata"][ch.draw_or(force_stratum % len(params["strata"]), len(params["strata"]), "stratum")]
     mode = ["django", "isolated"][ch.draw(2, "mode")]
     n = 2 + (1 if params["max_tasks"] >= 3 and ch.chance(1, 3, "three") else 0)
     tasks = []
@@ -370,9 +373,104 @@ def run_tasks(spec, knobs, plan):
     return setup, s, results
 
 
+# ------------------------------------------------------------------------------------------------ systematic sweep
+def sweep_blocks(spec, solo, set_id=None):
+    """The bounded pre-emption space of one two-task set, per focus group g of shared-state lines and per start order
+    (a, b):  depth 1 = a is stopped before its c1-th g-line, b runs to its end, a finishes          (H_a[g] schedules)
+             depth 2 = ... b is stopped before its k-th g-line, a finishes, then b                  (H_a[g] * H_b[g])."""
+    foci = []
+    for f in FOCI_BY_STRATUM[spec["stratum"]]:
+        if f != "all" and f not in foci and solo["groups"].get(f, 0) > 0:
+            foci.append(f)
+    d1, d2 = [], []
+    # one focus group per set (sets cycle through the groups of their stratum), so the per-set budget goes into ONE space
+    for f in (foci if set_id is None else [foci[set_id % len(foci)]] if foci else []):
+        for oi, (a, b) in enumerate(((0, 1), (1, 0))):
+            ha, hb = solo["task_groups"][a].get(f, 0), solo["task_groups"][b].get(f, 0)
+            if ha > 0:
+                d1.append((f, oi, 1, ha, 1))
+                if hb > 0:
+                    d2.append((f, oi, 2, ha, hb))
+    return foci, d1, d2
+
+
+def sweep_pick(j, K, d1, d2):
+    """Schedule number j of K for this set: all of depth 1 first, then the depth-2 blocks (smallest first) as far as the
+    budget reaches; a block that does not fit is sampled at an even stride.  Returns (block, offset) or None."""
+    def locate(blocks, t):
+        for b in blocks:
+            sz = b[3] * b[4]
+            if t < sz:
+                return b, t
+            t -= sz
+        return None
+
+    t1 = sum(b[3] for b in d1)
+    if t1 == 0:
+        return None
+    if t1 >= K:
+        return locate(d1, (j * t1) // K)
+    if j < t1:
+        return locate(d1, j)
+    j2, left = j - t1, K - t1
+    for b in sorted(d2, key=lambda b: (b[3] * b[4], b[0], b[1])):
+        sz = b[3] * b[4]
+        if sz <= left:
+            if j2 < sz:
+                return b, j2
+            j2 -= sz
+            left -= sz
+        else:
+            if j2 < left:
+                return b, (j2 * sz) // left
+            return None
+    return None
+
+
+def sweep_plan(ch, j, spec, solo, K, set_id=None):
+    foci, d1, d2 = sweep_blocks(spec, solo, set_id)
+    forced = None
+    if j is not None:
+        forced = sweep_pick(j, K, d1, d2)
+        if forced is None:
+            return None, foci
+    if not foci:
+        return None, foci
+    if forced is not None:
+        (f, oi, depth, ha, hb), off = forced
+        v = [foci.index(f), depth - 1, oi, off // hb, off % hb]
+    else:
+        v = [0, 0, 0, 0, 0]
+    focus = foci[ch.draw_or(v[0], len(foci), "sw_focus")]
+    depth = 1 + ch.draw_or(v[1], 2, "sw_depth")
+    a, b = ((0, 1), (1, 0))[ch.draw_or(v[2], 2, "sw_order")]
+    ha, hb = solo["task_groups"][a].get(focus, 0), solo["task_groups"][b].get(focus, 0)
+    c1 = 1 + ch.draw_or(v[3], max(1, ha), "sw_c1")
+    changes = [c1]
+    if depth == 2:
+        changes.append(c1 + 1 + ch.draw_or(v[4], max(1, hb), "sw_c2"))
+    return {"kind": "pct", "by": "shared", "order": [a, b], "changes": changes, "focus": focus,
+            "name": f"sweep-d{depth}"}, foci
+
+
 def run(ch, params, decoded=False):
-    knobs = R.draw_knobs(ch)
-    spec = draw_tasks(ch, params)
+    sweep = params.get("sweep")
+    sweep_j = sweep_set = None
+    if sweep and ch.prefix is None and ch.index is not None:
+        # systematic part: run index -> (task set, schedule number); the set's draws are adopted into this run's list
+        from sim.choices import Choices, derive_seed
+
+        K = sweep["per_set"]
+        sweep_j = ch.index % K
+        sweep_set = ch.index // K
+        ich = Choices(seed=derive_seed(ch.base_seed, "C07-sweep-set", ch.index // K))
+        knobs = R.draw_knobs(ich)
+        spec = draw_tasks(ich, params, force_stratum=sweep_set)
+        ch.adopt(ich.draws)
+        sweep_set //= len(params["strata"])   # what is left of the set number picks the focus group
+    else:
+        knobs = R.draw_knobs(ch)
+        spec = draw_tasks(ch, params)
     n = len(spec["tasks"])
 
     # ---- solo phase: grandchild forked from the pristine image ------------------------------------
@@ -383,7 +481,8 @@ def run(ch, params, decoded=False):
         try:
             setup, s, results = run_tasks(spec, knobs, {"kind": "serial", "order": list(range(n))})
             out = {"results": results, "steps": [t.steps for t in s.tasks], "shared": [t.shared_steps for t in s.tasks],
-                   "groups": dict(zip(schedmod.GROUPS, s.group_counts)), "end": setup.end_state()}
+                   "groups": dict(zip(schedmod.GROUPS, s.group_counts)), "end": setup.end_state(),
+                   "task_groups": [dict(zip(schedmod.GROUPS, t.group_counts)) for t in s.tasks]}
             setup.cleanup()
         except BaseException as e:
             out = {"harness_error": repr(e), "tb": traceback.format_exc()[-2000:]}
@@ -403,8 +502,14 @@ def run(ch, params, decoded=False):
         raise RuntimeError("solo phase: " + solo["harness_error"] + "\n" + solo.get("tb", ""))
 
     # ---- scheduled phase -----------------------------------------------------------------------------
-    foci = [f for f in FOCI_BY_STRATUM[spec["stratum"]] if f == "all" or solo["groups"].get(f, 0) > 0]
-    plan = schedmod.draw_plan(ch, n, sum(solo["steps"]), sum(solo["shared"]), foci=foci, focus_horizons=solo["groups"])
+    if sweep:
+        plan, foci = sweep_plan(ch, sweep_j, spec, solo, sweep["per_set"], sweep_set)
+        if plan is None:   # this set's bounded space is smaller than the per-set budget: nothing left to run
+            return {"violations": [], "key": None, "nontrivial": False, "digest": "skipped",
+                    "stats": {"sweep:slot_beyond_space": 1, "stratum:" + spec["stratum"]: 1}}
+    else:
+        foci = [f for f in FOCI_BY_STRATUM[spec["stratum"]] if f == "all" or solo["groups"].get(f, 0) > 0]
+        plan = schedmod.draw_plan(ch, n, sum(solo["steps"]), sum(solo["shared"]), foci=foci, focus_horizons=solo["groups"])
     setup, s, results = run_tasks(spec, knobs, plan)
     results = json.loads(json.dumps(results, default=repr))
     end = json.loads(json.dumps(setup.end_state(), default=repr))
@@ -414,6 +519,23 @@ def run(ch, params, decoded=False):
              "focus:" + plan.get("focus", "all"): 1,
              "sim_steps": s.step, "shared_state_steps": s.shared_step, "mode=" + spec["mode"]: 1,
              "lock_contention": s.contention}
+    if sweep:
+        stats["sweep:" + plan["name"] + ":" + plan["focus"]] = 1
+        if sweep_j == 0:
+            _f, d1, d2 = sweep_blocks(spec, solo, sweep_set)
+            K = sweep["per_set"]
+            t1 = sum(b[3] for b in d1)
+            stats["sweep:sets"] = 1
+            stats["sweep:sets_depth1_space_enumerated_completely:" + plan["focus"]] = int(t1 <= K)
+            left = K - t1
+            for b in sorted(d2, key=lambda b: (b[3] * b[4], b[0], b[1])):
+                left -= b[3] * b[4]
+                if left >= 0:
+                    stats["sweep:depth2_blocks_enumerated_completely:" + b[0]] = stats.get(
+                        "sweep:depth2_blocks_enumerated_completely:" + b[0], 0) + 1
+                else:
+                    stats["sweep:depth2_blocks_sampled_or_skipped:" + b[0]] = stats.get(
+                        "sweep:depth2_blocks_sampled_or_skipped:" + b[0], 0) + 1
     if s.error:
         violations.append({"class": "DEADLOCK", "fingerprint": ["deadlock"], "detail": {"what": s.error}})
     last_shared = s.shared_trace[-1][1] if s.shared_trace else "-"
